@@ -55,7 +55,7 @@ def prefixedArray (b : Bytes) : Bytes := encVarInt b.length ++ b
 
 /-- `write_fields`.  `plugResp i true none` is the one shape on which Python raises
 (`TrailingByteArray.send(None)` → `TypeError`); the reactor never builds it
-(`Lemmas/LoginWire.lean`, `WireInv.writable`), here it gets the bytes written before the raise. -/
+(`C10Wire.outbox_packets_writable`), here it gets the bytes written before the raise. -/
 def fieldsOf : ClientPkt → Bytes
   | .encResp sharedSecret verifyToken => prefixedArray sharedSecret ++ prefixedArray verifyToken
   | .plugResp msgId successful data =>
